@@ -264,21 +264,30 @@ func ruleClientReset(c *RC) *RuleResult {
 					}
 					feeds, resets := false, false
 					for _, st := range body {
-						ast.Inspect(st, func(m ast.Node) bool {
-							if ce, ok := m.(*ast.CallExpr); ok {
-								if f, ok := typeutil.Callee(top.Pkg.TypesInfo, ce).(*types.Func); ok {
-									switch f.Name() {
-									case "OnReceive", "OnTimeout", "OnTransaction", "OnNewTransaction":
-										feeds = true
-									case "Reset":
-										if sig := f.Type().(*types.Signature); sig.Recv() != nil && namedName(sig.Recv().Type()) == "DBFT" {
-											resets = true
-										}
+						// directly or in a helper of the example called from the arm
+						if c.simReaches(top, st, 0, func(f *FuncInfo, ce *ast.CallExpr) bool {
+							if fo, ok := typeutil.Callee(f.Pkg.TypesInfo, ce).(*types.Func); ok {
+								switch fo.Name() {
+								case "OnReceive", "OnTimeout", "OnTransaction", "OnNewTransaction":
+									if sig := fo.Type().(*types.Signature); sig.Recv() != nil && namedName(sig.Recv().Type()) == "DBFT" {
+										return true
 									}
 								}
 							}
-							return true
-						})
+							return false
+						}) {
+							feeds = true
+						}
+						if c.simReaches(top, st, 0, func(f *FuncInfo, ce *ast.CallExpr) bool {
+							if fo, ok := typeutil.Callee(f.Pkg.TypesInfo, ce).(*types.Func); ok && fo.Name() == "Reset" {
+								if sig := fo.Type().(*types.Signature); sig.Recv() != nil && namedName(sig.Recv().Type()) == "DBFT" {
+									return true
+								}
+							}
+							return false
+						}) {
+							resets = true
+						}
 					}
 					if feeds && !resets {
 						partial = c.Prog.Pos(n)
